@@ -58,6 +58,7 @@ type runner struct {
 	steps []step
 	sent  bool // SendJoin was called
 	made  bool // MakeJoin was called
+	quiet bool // the adversary leaves the rest of the run alone (the retry)
 }
 
 func (r *runner) log(a string, kv ...interface{}) {
@@ -75,8 +76,8 @@ var forgeTable = map[string][][2]string{
 		{"t_via", "remote"}, {"t_via", "none"}, {"t_via", "local"}, {"t_auth", "nocreate"}},
 	"sjreq": {{"origin", "X"}, {"room", "other"}, {"eid", "other"}, {"e_type", "other"}, {"e_mship", "leave"}, {"e_skey", "other"},
 		{"e_ssrv", "X"}, {"e_room", "other"}, {"e_via", "remote"}, {"e_via", "local"}, {"e_sig", "none"}, {"e_sig", "wrongkey"}, {"e_sig", "other"}},
-	"sjresp": {{"create", "missing"}, {"create", "unknownver"}, {"create", "badsig"}, {"st", "dup"}, {"st", "nokey"}, {"jrsig", "bad"},
-		{"ban", "yes"}, {"jret", "absent"}, {"jret", "notjoin"}},
+	"sjresp": {{"create", "missing"}, {"create", "unknownver"}, {"create", "badsig"}, {"create", "nochain"}, {"st", "dup"}, {"st", "dupmem"},
+		{"st", "nokey"}, {"st", "nocreate"}, {"jrsig", "bad"}, {"ban", "yes"}, {"jret", "absent"}, {"jret", "notjoin"}, {"jret", "malformed"}},
 	"mlreq": {{"origin", "X"}, {"usrv", "X"}, {"room", "other"}},
 	"invreq": {{"room", "other"}, {"e_type", "other"}, {"e_mship", "join"}, {"e_skey", "otherlocal"}, {"e_skey", "sender"}, {"e_ssrv", "R"},
 		{"e_room", "other"}, {"e_sig", "none"}, {"e_sig", "wrongkey"}, {"e_sig", "other"}},
@@ -92,7 +93,7 @@ func resignable(f string) bool {
 
 func viaSigned(ver string) bool {
 	switch ver {
-	case "9", "10", "11", "12":
+	case "9", "10", "11", "12", "org.matrix.msc3787", "org.matrix.msc4014", "org.matrix.hydra.11":
 		return true
 	}
 	return false
@@ -192,6 +193,9 @@ func (r *runner) forgeable(m *Msg, f, v string, resign bool) bool {
 // forgeries returns the forgeries to apply to the message in flight now.
 func (r *runner) forgeries(m *Msg) []Forge {
 	var out []Forge
+	if r.quiet {
+		return nil
+	}
 	if r.rng == nil {
 		for r.next < len(r.plan.Forges) && r.plan.Forges[r.next].At == m.K {
 			out = append(out, r.plan.Forges[r.next])
@@ -204,7 +208,7 @@ func (r *runner) forgeries(m *Msg) []Forge {
 
 // pick chooses one more random forgery for the message as it is now (nil: stop).
 func (r *runner) pick(m *Msg) *Forge {
-	if r.rng == nil || len(r.plan.Forges) >= r.maxF || r.rng.Intn(100) >= 35 {
+	if r.rng == nil || r.quiet || len(r.plan.Forges) >= r.maxF || len(r.plan.Forges) >= r.plan.Sc.FB || r.rng.Intn(100) >= 35 {
 		return nil
 	}
 	var cands []Forge
@@ -626,6 +630,28 @@ func (w *world) forgeSendJoinResp(wire *fclient.RespSendJoin, f Forge) {
 			panic(err)
 		}
 		wire.StateEvents = append(wire.StateEvents, dup.JSON())
+	case "st=dupmem": // two membership events of the joining user
+		u := userOf("J")
+		n := 1
+		if w.members[u] == nil || w.indexOf(wire.StateEvents, w.members[u].EventID()) < 0 {
+			n = 2
+		}
+		for i := 0; i < n; i++ {
+			lv, err := w.buildEvent(w.room, spec.MRoomMember, strp(u), u, map[string]string{"membership": "leave"}, w.authFor(w.create, w.pl, w.jr),
+				[]string{w.last}, w.depth+2+int64(i), t0.Add(time.Hour), servers["J"], servers["J"].priv)
+			if err != nil {
+				panic(err)
+			}
+			wire.StateEvents = append(wire.StateEvents, lv.JSON())
+		}
+	case "st=nocreate": // the state list (not the auth chain) lacks the create event
+		if i := w.indexOf(wire.StateEvents, w.create.EventID()); i >= 0 {
+			wire.StateEvents = append(wire.StateEvents[:i:i], wire.StateEvents[i+1:]...)
+		}
+	case "create=nochain":
+		wire.AuthEvents = nil
+	case "jret=malformed":
+		wire.Event = []byte(`{"type":"m.room.member","content":"c15","state_key":5}`)
 	case "st=nokey":
 		msg, err := w.buildEvent(w.room, "m.room.message", nil, userC, map[string]string{"msgtype": "m.text", "body": "c15"}, w.authFor(w.create, w.pl, mc),
 			[]string{w.last}, w.depth+2, t0.Add(time.Hour), R, R.priv)
@@ -685,6 +711,17 @@ func (r *runner) runJoin() {
 		},
 		StoreSenderIDFromPublicID: func(ctx context.Context, senderID spec.SenderID, userID string, id spec.RoomID) error { return nil },
 	}
+	for attempt := 0; ; attempt++ {
+		if r.joinOnce(in) != "refused" || !r.plan.Sc.Retry || attempt > 0 {
+			return
+		}
+		// the same input again; the network leaves the second attempt alone
+		r.log("Retry")
+		r.made, r.sent, r.quiet = false, false, true
+	}
+}
+
+func (r *runner) joinOnce(in gmsl.PerformJoinInput) string {
 	res, ferr := gmsl.PerformJoin(context.Background(), r, in)
 	o := outcome{Res: "ok"}
 	if ferr != nil {
@@ -700,10 +737,11 @@ func (r *runner) runJoin() {
 	if !r.sent {
 		r.steps = append(r.steps, step{A: "BuildJoin", Built: false, O: o})
 		r.log("BuildJoin", "built", false, "ev", AbsEv{Type: "none"}, "pj", o.Res)
-		return
+		return o.Res
 	}
 	r.steps = append(r.steps, step{A: "JoinDone", O: o})
 	r.log("JoinDone", "res", o.Res, "err", o.Err, "note", o.Note)
+	return o.Res
 }
 
 func (r *runner) runLeave() {
@@ -736,11 +774,71 @@ func (r *runner) runLeave() {
 	r.log("MakeLeaveResp", "res", o.Res, "code", o.Code, "tmpl", tmpl, "note", o.Note)
 }
 
+// runInvite: J's real PerformInvite (its user P, joined and entitled, invites a user of R) sends the invite through
+// this runner to R's real HandleInvite.
 func (r *runner) runInvite() {
+	sc := r.plan.Sc
+	sc.Mem = "none" // J's view of the room: the invited user is not a member (R's own view is the scenario's)
+	jw := newWorld(sc, userInvitee)
+	J := servers["J"]
+	in := gmsl.PerformInviteInput{
+		RoomID:        mustRoomID(jw.room),
+		RoomVersion:   jw.ver,
+		Inviter:       mustUserID(userP),
+		Invitee:       mustUserID(userInvitee),
+		IsTargetLocal: false,
+		EventTemplate: gmsl.ProtoEvent{SenderID: userP, RoomID: jw.room, Type: spec.MRoomMember, StateKey: strp(userInvitee),
+			Content: []byte(`{"membership":"invite"}`)},
+		StrippedState:     []gmsl.InviteStrippedState{gmsl.NewInviteStrippedState(jw.create)},
+		KeyID:             J.keyID,
+		SigningKey:        J.priv,
+		EventTime:         time.Now(),
+		MembershipQuerier: membershipQuerier{"none", false},
+		StateQuerier:      stateQuerier{jw},
+		UserIDQuerier:     userIDQuerier("ok"),
+		SenderIDQuerier: func(roomID spec.RoomID, userID spec.UserID) (*spec.SenderID, error) {
+			s := spec.SenderID(userID.String())
+			return &s, nil
+		},
+		SenderIDCreator: func(ctx context.Context, userID spec.UserID, roomID spec.RoomID, roomVersion string) (spec.SenderID, ed25519PrivateKey, error) {
+			return "", nil, errors.New("c15: no pseudo IDs here")
+		},
+		EventQuerier: func(ctx context.Context, roomID spec.RoomID, needed []gmsl.StateKeyTuple) (gmsl.LatestEvents, error) {
+			le := gmsl.LatestEvents{RoomExists: true, PrevEventIDs: []string{jw.last}, Depth: jw.depth + 1}
+			for _, e := range jw.state(true) {
+				for _, t := range needed {
+					if e.Type() == t.EventType && e.StateKeyEquals(t.StateKey) {
+						le.StateEvents = append(le.StateEvents, e)
+					}
+				}
+			}
+			return le, nil
+		},
+		StoreSenderIDFromPublicID: func(ctx context.Context, senderID spec.SenderID, userID string, id spec.RoomID) error { return nil },
+	}
+	ev, err := gmsl.PerformInvite(context.Background(), in, r)
+	if !r.sent {
+		panic(fmt.Sprintf("c15: PerformInvite did not send the invite: %v", err))
+	}
+	last := r.steps[len(r.steps)-1].O
+	if (err == nil) != (last.Res == "ok") || (err == nil && ev == nil) {
+		panic(fmt.Sprintf("c15: PerformInvite returned (%v, %v) after the invited server answered %q", ev != nil, err, last.Res))
+	}
+}
+
+// SendInviteV3 is the pseudo-ID variant: not part of these runs.
+func (r *runner) SendInviteV3(ctx context.Context, event gmsl.ProtoEvent, userID spec.UserID, roomVersion gmsl.RoomVersion, strippedState []gmsl.InviteStrippedState) (gmsl.PDU, error) {
+	panic("c15: SendInviteV3 in a room whose sender IDs are user IDs")
+}
+
+// SendInvite is the federation client of PerformInvite: the adversary, then R's HandleInvite.
+func (r *runner) SendInvite(ctx context.Context, event gmsl.PDU, strippedState []gmsl.InviteStrippedState) (gmsl.PDU, error) {
+	if r.sent {
+		panic("c15: SendInvite called twice")
+	}
+	r.sent = true
 	w := r.w
-	// J's user invites a user of R: a real invite event signed by J
-	call := inviteCall{room: w.room, event: w.concreteEvent(AbsEv{Type: "member", Mship: "invite", Ssrv: "J", Skey: "invitee", Room: "main",
-		Via: "none", Sig: "valid", Auth: "base"}, time.Now())}
+	call := inviteCall{room: event.RoomID().String(), event: event.JSON()}
 	project := func() *Msg {
 		e := w.projectEvent(call.event, "invite")
 		return &Msg{K: "invreq", Room: w.roomClass(call.room), Ev: &e}
@@ -758,6 +856,10 @@ func (r *runner) runInvite() {
 	o := w.callInvite(call)
 	r.steps = append(r.steps, step{A: "InviteResp", O: o})
 	r.log("InviteResp", "res", o.Res, "code", o.Code, "rsig", o.RSig, "same", o.Same, "note", o.Note)
+	if o.Res != "ok" {
+		return nil, netError{o.Code}
+	}
+	return w.impl.NewEventFromTrustedJSON([]byte(o.Extra["returned"].(json.RawMessage)), false)
 }
 
 // runPlan executes one behaviour; the first trace line describes it.
